@@ -34,7 +34,7 @@ def range_offset(ctx, rule):
     ctx.check(calls == ["u32::saturating_add(arg1.raw.src_col,arg1.offset)"], rule, g.path, "get_src_col", "the original column is src_col + offset with a saturating addition", detail=str(calls))
     gt = ctx.body("types::SourceMap::get_token::{closure#0}")
     aggs = [q.shape(gt.expr_of_rvalue(s["rv"])) for bi, si, s, it in gt.locations() if not it and s["k"] == "assign" and s["rv"]["k"] == "agg" and s["rv"].get("adt") == "types::Token"]
-    ctx.check(aggs == ["Token{raw:arg2,sm:upvar:self,idx:upvar:idx,offset:0}"], rule, gt.path, "get_token:offset-0", "tokens obtained by index or iteration carry offset 0", detail=str(aggs))
+    ctx.check(aggs == ["Token{raw:arg2,sm:^arg1,idx:^arg2,offset:0}"], rule, gt.path, "get_token:offset-0", "tokens obtained by index or iteration carry offset 0", detail=str(aggs))
     # no other body writes Token.offset
     others = []
     for b in ctx.facts.local_fns():
@@ -211,7 +211,7 @@ def glb_shape(ctx, rule):
     others = [s for s in shapes if s not in (want_err, want_ok) and not s.startswith("FromResidual::from_residual")]
     ctx.check(not others, rule, fn, "no-other-result", "no other value is returned", detail=str(others))
     c1 = ctx.facts.body("utils::greatest_lower_bound::{closure#1}", required=False)
-    ok = c1 is not None and closure_ret_shape(c1) == ["tuple(upvar:idx,arg2)"]
+    ok = c1 is not None and closure_ret_shape(c1) == ["tuple(^var:usize,arg2)"]
     ctx.check(ok, rule, fn, "ok:pair", "the match is returned together with its index")
 
 
@@ -225,7 +225,7 @@ def iteration(ctx, rule):
     if cl is not None:
         for bi, si, s, it in cl.locations():
             if not it and s["k"] == "assign" and s["place"]["p"] and s["place"]["p"][-1].get("n") == "next_idx":
-                ok = q.shape(cl.expr_of_rvalue(s["rv"])) == "Add(1,upvar:self.next_idx)"
+                ok = q.shape(cl.expr_of_rvalue(s["rv"])) == "Add(1,^arg1.next_idx)"
     ctx.check(ok, rule, b.path, "advance", "the index advances by exactly one per yielded token")
     gt = ctx.body("types::SourceMap::get_token")
     calls = [q.shape(gt.expr_of_call(t)) for bi, t in gt.calls()]
